@@ -221,6 +221,12 @@ def install(R):
             o = new_estimator(E, est.fields.get("$name", "est") + "_clone", est.fields["$class"],
                               est.fields["$methods"], False, est.fields["$params"], est.fields["$bases"])
             o.fields["$clone_of"] = est
+            # constructor parameters kept as plain attributes (scikit-learn: clone copies parameters, clones nested estimators)
+            for pf in est.fields.get("$param_fields", ()):
+                v = est.fields[pf]
+                o.fields[pf] = _clone(E, v, False) if isinstance(v, Obj) and v.tag == "estimator" else v
+            if "$param_fields" in est.fields:
+                o.fields["$param_fields"] = list(est.fields["$param_fields"])
             for k in ("$width_predict_proba", "$width_transform", "$width_decision_function", "$fitted_attrs", "$fit_params"):
                 if k in est.fields:
                     o.fields[k] = est.fields[k]
@@ -584,6 +590,22 @@ def install(R):
     R.fns["itertools.combinations"] = lambda E, it, r: _Gen([tuple(c) for c in _it.combinations(_iter_conc(E, it), r)])
     R.fns["itertools.combinations_with_replacement"] = lambda E, it, r: _Gen([tuple(c) for c in _it.combinations_with_replacement(_iter_conc(E, it), r)])
     R.fns["itertools.chain.from_iterable"] = lambda E, its: _Gen([x for it in E.iterate_concrete(its) for x in E.iterate_concrete(it)])
+    def _deepcopy(E, v):
+        """copy.deepcopy on the value kinds that occur in fitted attributes"""
+        if isinstance(v, NdArr):
+            c = v.copy()
+            c.cell.copy_of = v
+            return c
+        if isinstance(v, list):
+            return [_deepcopy(E, x) for x in v]
+        if isinstance(v, tuple):
+            return tuple(_deepcopy(E, x) for x in v)
+        if isinstance(v, dict):
+            return {k: _deepcopy(E, x) for k, x in v.items()}
+        if isinstance(v, Obj):
+            raise Unsupported("deepcopy of an object")
+        return v
+    R.fns["copy.deepcopy"] = _deepcopy
     R.fns["scipy.sparse.issparse"] = lambda E, X: False if isinstance(X, NdArr) else (_ for _ in ()).throw(Unsupported("issparse"))
     R.fns["sklearn.utils.extmath.row_norms"] = lambda E, X, squared=False: NdArr.fresh("row_norms", (X.shape[0],), "real")
 
